@@ -23,6 +23,7 @@ import Ajson.Proofs.SetNodeValue
 import Ajson.Proofs.AppendManyValue
 import Ajson.Proofs.SetArrayValue
 import Ajson.Proofs.SetObjectValue
+import Ajson.Proofs.UnpackCanon
 import Ajson.Model.Decode
 
 namespace Ajson.Props.C05
@@ -387,6 +388,46 @@ example : (match unmarshal "[1,2]".toUTF8.toList with
 theorem C05_inv_cache_fill {h : Heap} (hs : Struct h) (n : Id) (c : Option CacheVal) :
     Struct (h.modify n (fun r => { r with cache := c })) :=
   struct_modify_irrelevant hs n _ (fun _ => ⟨rfl, rfl, rfl, rfl, rfl, rfl, rfl, rfl⟩)
+
+/-! ### "as seen by Unpack"
+
+The theorems above speak about `absVal`, the plain data a node denotes. `Unpack()` is tied to it here, on every structurally sound
+heap — so after any history — and with no assumption on which reads happened before: `Unpack` answers `v` exactly when the node denotes
+a value whose canonical form (`canon`: the members of every object in key order; a Go map has no order, the model lists them sorted) is
+`v`. In particular `Unpack` fails on such a heap only where the tree has no value: a number literal outside the float64 range. -/
+
+/-- **`Unpack` answers exactly the value the tree denotes** -/
+theorem C05_unpack_answers_the_value {h : Heap} (hs : Struct h) (fuel : Nat) (n : Nat) (hn : n < h.size) (v : JVal) :
+    (h.unpack fuel n).2 = .ok v ↔ (absVal fuel h n).map canon = some v :=
+  unpack_iff_value fuel h n v hs hn
+
+/-- … after any history of edits, clones, container assignments and SetNode -/
+theorem C05_unpack_answers_the_value_after_any_history (ss : List Step) (h : Heap) (hs : Struct h) (ha : Acyc h) (hv : ValidSteps h ss)
+    (fuel : Nat) (n : Nat) (hn : n < (ss.foldl Step.run h).size) (v : JVal) :
+    ((ss.foldl Step.run h).unpack fuel n).2 = .ok v ↔ (absVal fuel (ss.foldl Step.run h) n).map canon = some v :=
+  unpack_iff_value fuel _ n v (steps_sound ss h hs ha hv).1 hn
+
+/-- `Unpack` is a read (`Fills`: it only fills empty value cells, each with what `getValue` reports), and reads change the value of no
+node — on any heap, edited ones included -/
+theorem C05_unpack_is_a_read (h : Heap) (fuel : Nat) (n : Nat) :
+    Fills h (h.unpack fuel n).1 ∧ ∀ (h' : Heap), Fills h h' → ∀ f m, absVal f h' m = absVal f h m :=
+  ⟨unpack_fills fuel h n, fun _ r f m => absVal_fills r f m⟩
+
+/-- witness (kernel evaluation): a parsed object whose members are stored out of key order, after an edit — `Unpack` answers, the
+node denotes a value, and both list the members in key order -/
+example :
+    (match unmarshal "{\"b\":[1,true],\"a\":\"x\"}".toUTF8.toList with
+     | .error _ => false
+     | .ok (h0, root) =>
+       match h0.getKey (some root) [98] with
+       | .ok b =>
+         let (h1, _) := h0.popIndex (some b) 0                             -- b = [true]
+         match (h1.unpack (h1.size + 1) root).2, (absVal (h1.size + 1) h1 root).map canon, absVal (h1.size + 1) h1 root with
+         | .ok (.obj [(k1, .str [120]), (k2, .arr [.bool true])]), some (.obj [(k1', .str [120]), (k2', .arr [.bool true])]),
+           some (.obj [(k1'', .arr [.bool true]), (k2'', .str [120])]) =>
+           k1 == [97] && k2 == [98] && k1' == [97] && k2' == [98] && k1'' == [98] && k2'' == [97]
+         | _, _, _ => false
+       | _ => false) = true := by decide +kernel
 
 /-- the hypotheses are satisfiable: the empty heap, and a heap with one detached scalar -/
 example : Struct ({} : Heap) := fun p hp => by simp [Heap.size] at hp
